@@ -47,13 +47,16 @@ def seeded_md():
     r5 = json.load(open('/verif/seeded/ROUND5_BLIND.json')) if os.path.exists('/verif/seeded/ROUND5_BLIND.json') else {'blind_detected': {}, 'notes': {}}
     r6 = json.load(open('/verif/seeded/ROUND6_BLIND.json')) if os.path.exists('/verif/seeded/ROUND6_BLIND.json') else {'blind_detected': {}, 'notes': {}}
     r7 = json.load(open('/verif/seeded/ROUND7_BLIND.json')) if os.path.exists('/verif/seeded/ROUND7_BLIND.json') else {'blind_detected': {}, 'notes': {}}
+    r8 = json.load(open('/verif/seeded/ROUND8_BLIND.json')) if os.path.exists('/verif/seeded/ROUND8_BLIND.json') else {'blind_detected': {}, 'notes': {}}
     out = ['| seeded change | round | what it does | needs to manifest | caught by (now) | detected blind (rule existed before the change was seen) |\n|---|---|---|---|---|---|']
-    nb = [0] * 14
+    nb = [0] * 16
     for k in sorted(res):
         m = json.load(open('/verif/seeded/%s/meta.json' % k))
         s = (m.get('summary') or '')[:160].replace('|', '/').replace('\n', ' ')
         nd = str(m.get('needs_to_manifest') or '')[:140].replace('|', '/').replace('\n', ' ')
-        if k in r7['blind_detected']:
+        if k in r8['blind_detected']:
+            rnd, blind = 8, r8['blind_detected'][k]
+        elif k in r7['blind_detected']:
             rnd, blind = 7, r7['blind_detected'][k]
         elif k in r6['blind_detected']:
             rnd, blind = 6, r6['blind_detected'][k]
@@ -69,12 +72,12 @@ def seeded_md():
             rnd, blind = 1, bool(m.get('static_check_result', {}).get('rule_existed_before_this_change_was_seen'))
         nb[(rnd - 1) * 2] += 1
         nb[(rnd - 1) * 2 + 1] += 1 if blind else 0
-        note = r2['notes'].get(k, '') or r3.get('notes', {}).get(k, '') or r4.get('notes', {}).get(k, '') or r5.get('notes', {}).get(k, '') or r6.get('notes', {}).get(k, '') or r7.get('notes', {}).get(k, '')
+        note = r2['notes'].get(k, '') or r3.get('notes', {}).get(k, '') or r4.get('notes', {}).get(k, '') or r5.get('notes', {}).get(k, '') or r6.get('notes', {}).get(k, '') or r7.get('notes', {}).get(k, '') or r8.get('notes', {}).get(k, '')
         out.append('| %s | %d | %s | %s | %s | %s |' % (k, rnd, s, nd, ', '.join(res[k].get('rules', [])) or res[k]['status'],
                                                          ('yes' if blind else 'no') + ((' -- ' + note) if note else '')))
     n = sum(1 for v in res.values() if v['status'] == 'detected')
-    out.append('\nDetected now: %d of %d. Blind: round 1 %d of %d (most round-1 rules were written after reading the change), round 2 %d of %d, round 3 %d of %d, round 4 %d of %d, round 5 %d of %d, round 6 %d of %d, round 7 %d of %d.' % (
-        n, len(res), nb[1], nb[0], nb[3], nb[2], nb[5], nb[4], nb[7], nb[6], nb[9], nb[8], nb[11], nb[10], nb[13], nb[12]))
+    out.append('\nDetected now: %d of %d. Blind: round 1 %d of %d (most round-1 rules were written after reading the change), round 2 %d of %d, round 3 %d of %d, round 4 %d of %d, round 5 %d of %d, round 6 %d of %d, round 7 %d of %d, round 8 %d of %d.' % (
+        n, len(res), nb[1], nb[0], nb[3], nb[2], nb[5], nb[4], nb[7], nb[6], nb[9], nb[8], nb[11], nb[10], nb[13], nb[12], nb[15], nb[14]))
     return '\n'.join(out)
 
 
